@@ -40,7 +40,46 @@ type item struct {
 
 func (it item) String() string { return fmt.Sprintf("%s%d", it.Kind, it.ID) }
 
-const batchMax = 4096
+// batchMax is the largest batch the inbox worker hands to Invoke. It is an
+// internal constant of the code under test (4096 at the time of writing); the
+// model needs it to know how far a poison pill's drain reaches, so it is
+// measured on the real Inbox once per process instead of being assumed.
+var (
+	batchMax     = 4096
+	batchMaxOnce sync.Once
+)
+
+type firstBatchProc struct {
+	first chan int
+	once  sync.Once
+}
+
+func (p *firstBatchProc) Start()                           {}
+func (p *firstBatchProc) PID() *actor.PID                  { return nil }
+func (p *firstBatchProc) Send(*actor.PID, any, *actor.PID) {}
+func (p *firstBatchProc) Shutdown()                        {}
+func (p *firstBatchProc) Invoke(msgs []actor.Envelope) {
+	p.once.Do(func() { p.first <- len(msgs) })
+}
+
+func measureBatchMax() {
+	batchMaxOnce.Do(func() {
+		in := actor.NewInbox(8)
+		for i := 0; i < 20000; i++ {
+			in.Send(actor.Envelope{Msg: i})
+		}
+		p := &firstBatchProc{first: make(chan int, 1)}
+		in.Start(p)
+		select {
+		case n := <-p.first:
+			if n >= 16 && n < 20000 {
+				batchMax = n
+			}
+		case <-time.After(10 * time.Second):
+		}
+		in.Stop()
+	})
+}
 
 type scriptSpec struct {
 	InboxSize    int
@@ -266,6 +305,7 @@ func (s *sim) invoke(batch []item) {
 }
 
 func simulate(spec *scriptSpec) simResult {
+	measureBatchMax()
 	s := &sim{spec: spec}
 	s.r.gateEntered = map[int]bool{}
 	s.r.crashKinds = map[string]int{}
